@@ -9,8 +9,10 @@ DETECT = {
     "KdqTreeBatch": ("alpha", [0.3, 0.2, 0.05, 0.01]), "NNDVI": ("alpha", [0.3, 0.2, 0.05, 0.01]),
     "HDDDM": ("significance", None), "CDBD": ("significance", None),
 }
-WARN = {"DDM": ("warning_scale", [2.0, 1.5, 1.0, 0.5]), "EDDM": ("warning_thresh", [0.9, 0.95, 0.97, 0.99]),
-        "STEPD": ("alpha_warning", [0.05, 0.1, 0.2, 0.4]), "LinearFourRates": ("warning_level", [0.02, 0.05, 0.1, 0.2])}   # strict -> loose
+# strict -> loose; the first value of each list is STRICTER than the drift threshold used below (a legal, if unusual, configuration:
+# nothing orders the two thresholds): the drift decision must not depend on the warning threshold there either
+WARN = {"DDM": ("warning_scale", [4.0, 2.0, 1.5, 1.0, 0.5]), "EDDM": ("warning_thresh", [0.5, 0.9, 0.95, 0.97, 0.99]),
+        "STEPD": ("alpha_warning", [0.001, 0.05, 0.1, 0.2, 0.4]), "LinearFourRates": ("warning_level", [0.002, 0.02, 0.05, 0.1, 0.2])}
 
 
 def base_params(fam, rng):
@@ -85,9 +87,11 @@ def run(ctx):
                  nontrivial=lambda t: any(e["b"]["state"] == "drift" for e in t["ev"]))
     tw = []
     for fam, (par, vals) in WARN.items():
-        for i in range(per):
+        for i in range(per + 1):
             p = P.default_params(fam, rng)
             i1, i2 = sorted(rng.sample(range(len(vals)), 2))
+            if i % 2 == 0:
+                i1 = 0
             strict, loose = dict(p), dict(p)
             strict[par], loose[par] = vals[i1], vals[i2]
             if fam == "DDM":
